@@ -44,6 +44,8 @@ AuthCases ==
 VerCases ==
     {UCase(Ver(v), pre, cap, "version") : v \in {N_U2F_V2, Rep(0, 6), Pattern(126, 6)}, pre \in Pres, cap \in 0..16}
 
+VerCasesFitting == {c \in VerCases : Len(c.pre) <= c.cap}      \* (what the buffer holds cannot exceed its capacity)
+
 NewCases ==
     {[op |-> "u2f_register_new", tag |-> "register-new", header |-> h, key |-> EcdhKey(s), keyHandle |-> Pattern(1, kh),
       cert |-> Pattern(2, 30), sig |-> Pattern(3, 70)] : h \in {0, 5, 255}, s \in {1, 100, 200}, kh \in {0, 64, 255}}
